@@ -187,6 +187,13 @@ func extractTarDirectory(dirPath, dirName string, r io.Reader, buf []byte, prese
 			}
 			err = writeFile(filePath, tr, header.FileInfo().Mode(), buf)
 		case tar.TypeDir:
+			// likewise for a directory: MkdirAll would accept the directory the link
+			// points to, and the entry's mode and times would be applied through it
+			if info, lerr := os.Lstat(filePath); lerr == nil && info.Mode()&os.ModeSymlink != 0 {
+				if err := os.Remove(filePath); err != nil {
+					return err
+				}
+			}
 			err = os.MkdirAll(filePath, header.FileInfo().Mode())
 		case tar.TypeLink:
 			// NOTE: ORAS does not generate hard links when creating tarballs.
